@@ -1944,6 +1944,12 @@ class HealSparseMap(object):
             _sentinel = check_sentinel(self._sparse_map[key].dtype.type, sentinel)
 
         if not copy:
+            if key != self._primary and \
+                    _sentinel != check_sentinel(self._sparse_map[key].dtype.type, None):
+                # The unset pixels of the shared storage hold the field's default sentinel:
+                # a view with another sentinel would see every one of them as valid (and
+                # in-place arithmetic through it would overwrite them in this map).
+                raise ValueError("Cannot override the sentinel of a field view; use copy=True.")
             # This will not copy memory which allows in-recarray assignment.
             # Problems can potentially happen with mixed type recarrays depending
             # on how they were constructed (though using make_empty should be safe).
